@@ -148,6 +148,58 @@ while true do local co = coroutine.wrap(function() local c <close> = closer() co
 	{"deep-recursion-pcall", `local function r(n) return pcall(r, n + 1) end while true do r(1) end`},
 }
 
+// callback sites: every place where the library or the VM calls back into Lua,
+// each handed a function that never returns; combined with four ways of
+// observing what happens after the limit is hit.
+const loopFn = `function(...) while true do end end`
+
+var callbackSites = []struct{ name, call string }{
+	{"sort-cmp", `table.sort({3, 2, 1}, LOOP)`},
+	{"sort-lt", `local o = setmetatable({}, {__lt = LOOP}) table.sort({o, o, o})`},
+	{"gsub-fn", `string.gsub("abc", ".", LOOP)`},
+	{"gsub-table-index", `string.gsub("abc", ".", setmetatable({}, {__index = LOOP}))`},
+	{"load-reader", `load(LOOP)`},
+	{"tostring", `tostring(setmetatable({}, {__tostring = LOOP}))`},
+	{"format-s", `string.format("%s", setmetatable({}, {__tostring = LOOP}))`},
+	{"print", `print(setmetatable({}, {__tostring = LOOP}))`},
+	{"concat-index", `table.concat(setmetatable({}, {__index = LOOP}), ",", 1, 3)`},
+	{"insert-newindex", `table.insert(setmetatable({}, {__newindex = LOOP}), 1)`},
+	{"unpack-index", `table.unpack(setmetatable({}, {__index = LOOP}), 1, 3)`},
+	{"move-index", `table.move(setmetatable({}, {__index = LOOP}), 1, 3, 2, {})`},
+	{"ipairs-index", `for _ in ipairs(setmetatable({}, {__index = LOOP})) do end`},
+	{"pairs-metamethod", `for _ in pairs(setmetatable({}, {__pairs = LOOP})) do end`},
+	{"index", `local _ = setmetatable({}, {__index = LOOP}).k`},
+	{"newindex", `setmetatable({}, {__newindex = LOOP}).k = 1`},
+	{"call", `setmetatable({}, {__call = LOOP})()`},
+	{"arith", `local _ = setmetatable({}, {__add = LOOP}) + 1`},
+	{"concat", `local _ = setmetatable({}, {__concat = LOOP}) .. "x"`},
+	{"len", `local _ = #setmetatable({}, {__len = LOOP})`},
+	{"eq", `local m = {__eq = LOOP} local _ = setmetatable({}, m) == setmetatable({}, m)`},
+	{"lt", `local _ = setmetatable({}, {__lt = LOOP}) < 1`},
+	{"unm", `local _ = -setmetatable({}, {__unm = LOOP})`},
+	{"close", `do local cl <close> = setmetatable({}, {__close = LOOP}) end`},
+	{"xpcall-handler", `xpcall(error, LOOP, "x")`},
+	{"coroutine-wrap", `coroutine.wrap(LOOP)()`},
+	{"for-iterator", `for _ in LOOP do end`},
+	{"select-after-call", `select(2, (LOOP)())`},
+}
+
+var callbackWrappers = []struct{ name, src string }{
+	{"direct", `emit("before") CALL emit("survived")`},
+	{"in-coroutine", `emit("resume-returned", coroutine.resume(coroutine.create(function() CALL end))) emit("survived") while true do end`},
+	{"pending-close", `local c <close> = setmetatable({}, {__close = function() emit("close-ran") end}) CALL emit("survived")`},
+	{"in-pcall", `emit("intercepted", pcall(function() CALL end)) while true do end`},
+}
+
+func init() {
+	for _, s := range callbackSites {
+		for _, w := range callbackWrappers {
+			call := strings.ReplaceAll(s.call, "LOOP", loopFn)
+			intercept = append(intercept, struct{ name, src string }{"callback:" + s.name + "/" + w.name, strings.ReplaceAll(w.src, "CALL", call)})
+		}
+	}
+}
+
 // unmetered: library calls with a size parameter N; under small limits they
 // must come back (done, error or killed), whatever N.
 var unmetered = []struct{ name, src string }{
